@@ -8,7 +8,7 @@ from ..terms import A, C, F, V, L, NIL, call, conj, TRUE, show_clause, show_term
 ID = 'C09'
 LEVEL = 'model_checking'
 RULE = ('every program t(..) :- [Gv = Goal,] Builtin for Builtin in {call(G), call(G\',Extra..) for every split of '
-        'the goal\'s arguments into carried and extra arguments, once(G), \\+ call(G), findall(T,G,L) for 6 templates, '
+        'the goal\'s arguments into carried and extra arguments (<= 2 extra; for the 12- and 6-argument predicates every split, i.e. call/1 .. call/13), once(G), \\+ call(G), findall(T,G,L) for 6 templates, '
         'each optionally followed by a continuation goal or used twice in a row on the same goal term} x goal in {atoms and compound goals with 0/1/2 solutions '
         'over compiled facts, a rule, dynamic facts, an undefined predicate} x goal written inline, arriving in a '
         'variable bound at run time, or through a chain of two variables aliased before the goal is bound [thorough: x one level of nesting of the builtins inside each other], each '
@@ -33,13 +33,22 @@ SUPPORT = [
     (F('u', V('X')), conj(call(F('m', V('X'))), call(F('\\=', V('X'), C(1))))),
     (F('w', V('X'), V('Y')), conj(call(F('m', V('X'))), call(F('=', V('Y'), F('g', V('Z')))), call(F('=', V('Z'), V('X'))))),
 ]
+# predicates with many arguments: call/N for every N up to 13
+WIDE = [F('wd', *([C(i) for i in range(1, 11)] + [X, Y])), F('wd6', *([C(i) for i in range(1, 5)] + [X, Y]))]
+SUPPORT += [
+    (F('wd', *([C(i) for i in range(1, 11)] + [C(1), A('a')])), None),
+    (F('wd', *([C(i) for i in range(1, 11)] + [C(2), A('b')])), None),
+    (F('wd', *([C(0)] * 12)), None),
+    (F('wd6', *([C(i) for i in range(1, 5)] + [C(1), A('a')])), None),
+    (F('wd6', *([C(i) for i in range(1, 5)] + [C(2), A('c')])), None),
+]
 FACTS = [(F('d', C(1)), True), (F('d', C(2)), True)]
 GOALS = [A('n0'), A('n1'), A('n2'), F('z1', X), F('o', X), F('m', X), F('d', X), F('u', X), F('r', X, Y), F('r', C(2), Y),
          F('m', C(2)), F('w', X, Y)]
 TEMPLATES = [X, F('f', X, Y), A('a'), L([X], Y), Y, L([X, Y])]
 
 
-def splits(goal):
+def splits(goal, max_extra=2):
     """all ways to write goal as call(G', extra...)"""
     if goal[0] == 'a':
         return [(goal, ())]
@@ -47,7 +56,7 @@ def splits(goal):
     out = []
     for i in range(len(args), -1, -1):
         carried, extra = args[:i], args[i:]
-        if len(extra) > 2:
+        if len(extra) > max_extra:
             continue
         g = ('f', name, tuple(carried)) if carried else ('a', name)
         out.append((g, tuple(extra)))
@@ -90,6 +99,11 @@ def programs(nesting):
                 # the same goal term used by the builtin twice in a row (a meta-call must not
                 # consume or alter the goal it is given)
                 yield idx, goal, tag, g2, mk, usesL, via_var, 'twice'
+                idx += 1
+    for goal in WIDE:
+        for g2, extra in splits(goal, 99):
+            for via_var in (False, True):
+                yield idx, goal, 'call/%d' % (1 + len(extra)), g2, (lambda g, e=extra: call(F('call', g, *e))), False, via_var, None
                 idx += 1
 
 
